@@ -98,6 +98,11 @@ func runC01(r *Run) {
 	r.checkFullThenUpdate(P)
 	r.checkResolveFlow(P)
 	r.checkEffectTable(P, false)
+	// an operation that is not authorised must not change the result by its mere presence: a commitment counts as
+	// consumed only once a state was produced from it (shared with C03), and supplied operations are dropped only as
+	// anchored duplicates (shared with C02)
+	r.checkProgress(P)
+	r.checkAdditionalMerge(P)
 
 	// --- C01.reveal.<type> in both modes
 	for _, role := range opRoles {
